@@ -1,6 +1,7 @@
 import Martian.PostProcess
 import Proofs.PostProcessDests
 import Proofs.PostProcessChecked
+import Proofs.PostProcessRecord
 import Gen.Facts
 import Driver.Util
 
@@ -10,6 +11,7 @@ import Driver.Util
 * mode     `p` = one parameter through `moveOut` (value = its JSON value),
            `o2` = `processStructOuts` twice on the same record (interrupted post-process + restart),
            `o` = `processStructOuts` (value = the `_outs` object),
+           `x` = the record `content_preserved_record` promises (`pureOuts (expectVal fs)`),
            `a`/`m` = `postProcess` of a top-level call mapped over an array / a typed map
 * dimAware `g` = the regenerated fact, `t`/`f` = forced
 * ps, outsPath: hex of the path string
@@ -168,6 +170,11 @@ def handle (op : String) (args : List String) : Option String :=
     let r ← (match mode, params, v with
       | "p", [(id, on, ty)], v => some (moveOut da ps ty id on v outs fs)
       | "o", params, v => some (processStructOuts da ps params v outs fs)
+      | "x", params, v =>
+        -- the record content_preserved_record promises when `Clean` holds: every file leaf
+        -- replaced by `expectVal` judged in the initial file system; no file-system effect
+        let kvs := match v with | .obj kvs => kvs | _ => []
+        some (J.obj (pureOuts (expectVal fs) params kvs outs), fs)
       | "o2", params, v =>
         -- post-processing interrupted before `_outs` was rewritten, then run again on the same record
         some (processStructOuts da ps params v outs (processStructOuts da ps params v outs fs).2)
